@@ -8,7 +8,7 @@ Outcomes go to the change's meta.json ('rechecked'); all scratch directories are
 import json, os, re, shutil, subprocess, sys, threading, queue
 
 V = '/verif'
-ROOT = '/tmp/vpar'
+ROOT = '/tmp/vpar_%d' % os.getpid()      # one root per invocation: two runs at once must not clear each other's workers
 
 
 def sh(cmd, **kw):
